@@ -533,6 +533,66 @@ impl B {
         }
     }
 
+    /// Counting over a large, regular haystack (fixed-width records, constant
+    /// fill): tens of thousands of matches, the same lane matching in hundreds
+    /// of consecutive vectors.
+    fn scn_big_count(&mut self, t: usize, all_backends: bool) {
+        if self.full() || self.tgt.scale_small {
+            return;
+        }
+        let len = match self.rng.below(4) {
+            0 => self.rng.range(8 * 1024, 12 * 1024),
+            1 => self.rng.range(16 * 1024, 20 * 1024),
+            2 => self.rng.range(24 * 1024, 40 * 1024),
+            _ => self.rng.range(2048, 8 * 1024),
+        };
+        let needle = *self.rng.pick(&[b'\n', 0u8, b'a', 0xFF]);
+        let other = if needle == b'-' { b'+' } else { b'-' };
+        let hay: Vec<u8> = match self.rng.below(4) {
+            0 => vec![needle; len],
+            1 => {
+                let period = *self.rng.pick(&[2usize, 4, 8, 16, 32, 64, 3, 5]);
+                let at = self.rng.usize_below(period);
+                (0..len).map(|i| if i % period == at { needle } else { other }).collect()
+            }
+            2 => {
+                // mostly matches, a few holes
+                let mut h = vec![needle; len];
+                for _ in 0..self.rng.range(1, 20) {
+                    let i = self.rng.usize_below(len);
+                    h[i] = other;
+                }
+                h
+            }
+            _ => {
+                // dense for a long stretch, then sparse
+                let split = self.rng.range(len / 4, len - 1);
+                (0..len).map(|i| if i < split || i % 97 == 0 { needle } else { other }).collect()
+            }
+        };
+        let hay = self.buf(hay, None);
+        let n = [needle, needle, needle];
+        if all_backends {
+            self.push(t, Op::ByteAll { f: ByteFn::Count, arity: 1, n, hay });
+        } else {
+            let be = self.byte_backend();
+            self.push(t, Op::Byte { be, f: ByteFn::Count, arity: 1, n, hay, raw: RawForm::Slice });
+            // and through an iterator that was advanced from both ends first
+            if self.rng.chance(1, 4) {
+                let be = self.byte_backend();
+                let it = self.slot(t);
+                self.push(t, Op::IterNew { be, arity: 1, n, hay, dst: it });
+                for _ in 0..self.rng.range(0, 3) {
+                    self.push(t, Op::IterNext { it });
+                }
+                for _ in 0..self.rng.range(0, 3) {
+                    self.push(t, Op::IterNextBack { it });
+                }
+                self.push(t, Op::IterCount { it });
+            }
+        }
+    }
+
     fn scn_memmem_oneshots(&mut self, t: usize, k: usize, max_hay: usize, max_needle: usize) {
         for _ in 0..k {
             if self.full() {
@@ -945,6 +1005,9 @@ pub fn generate(profile: Profile, verif_seed: u64, index: u64, tgt: Target) -> F
                 let mh = b.max_hay(600);
                 b.scn_byte_iter(t, true, false, mh);
             }
+            if b.rng.chance(1, 12) {
+                b.scn_big_count(0, false);
+            }
             // direct One::count / count_raw on every backend
             let mh = b.max_hay(600);
             for _ in 0..b.rng_range(1, 4) {
@@ -1020,6 +1083,9 @@ pub fn generate(profile: Profile, verif_seed: u64, index: u64, tgt: Target) -> F
                 let k = b.rng_range(2, 6);
                 b.scn_byte_oneshots(0, k, true, false, mh);
                 b.scn_cross_backend(0, 2, mh, mn);
+                if b.rng.chance(1, 16) {
+                    b.scn_big_count(0, true);
+                }
                 let ch = b.rng.chance(1, 2);
                 b.scn_byte_iter(0, ch, true, mh);
                 let k = b.rng_range(1, 3);
